@@ -1,11 +1,15 @@
 (* C05 -- `position ... moves`: statements about the model of uci/moves.rs and uci/position.rs (Uci.v).
-   PARTIAL: proved relative to the engine's own list of generated moves -- a token is resolved to a move iff that move
-   is generated and prints as the token (the printed string being the specification's notation, C09), or the token is
-   a conventional castling string for the mover and the e-file king-takes-rook move is generated.  That the generated
-   list is the rules' list of legal moves (so that find_move = `denotes` of spec/UciSpec.v) is C01's open half and is
-   checked by the correspondence run. *)
+   PROVED on the model (C05_moves_follow_the_specification): for every position satisfying the invariant, the en-passant
+   consistency and the geometry condition `TokGeo` (standard mode: a side with a castling right has its king on the e-file;
+   queen-side castle file west of the king-side one -- true of every position the parser builds and kept by every move), and every
+   token list, the command plays exactly the tokens that DENOTE a legal move under spec/UciSpec.v (printed name in the active
+   notation, or the conventional e1g1/e1c1/e8g8/e8c8 strings when that castling move is legal), in order, reports every other
+   token as unknown and leaves the position unchanged for it; the history holds one key per position reached.  This rests on C01
+   (generated moves = the rules' legal moves) and C09 (printed names are exact and unambiguous).  `alias_geo`/`TokGeo` is needed:
+   without it the matcher's castling alias can resolve to the other wing's castling move (C05_alias_geometry_is_needed: a
+   position no FEN produces -- both recorded castle files equal). *)
 From Coq Require Import NArith ZArith List Bool String.
-From Rawr Require Import Consts Bits Magic Position MoveGen MakeMove MakeStages Fen Eval TT Search Uci UciFacts NotationMoves.
+From Rawr Require Import Consts Bits Magic Position MoveGen MakeMove MakeStages Fen Eval TT Search Uci UciFacts NotationMoves Rules Abs UciSpec Closure EpRetro TokenSpec.
 Import ListNotations.
 Local Open Scope N_scope.
 
@@ -37,9 +41,33 @@ Theorem C05_matcher_complete : forall p, good_pos_b p = true -> std_geo p ->
   forall m, In m (legal_moves p) -> find_move p (to_uci p m) = Some m.
 Proof. intros p H SG. exact (proj2 (proj2 (good_pos_notation p H SG))). Qed.
 
+(* ---- the matcher is the specification's denotation, and the command follows the specification's play *)
+Theorem C05_matcher_is_the_denotation : forall p, Inv0 p -> ep_ok_b p = true -> std_geo p -> forall t, alias_geo p ->
+  denotes (is_frc p) (abs_state p) t = option_map (dec p) (find_move p t).
+Proof. exact denotes_find_move. Qed.
+Theorem C05_moves_follow_the_specification : forall toks p h, Inv0 p -> ep_ok_b p = true -> TokGeo p ->
+  let '(p', _, out) := moves_cmd toks p h [] in
+  play_tokens (is_frc p) (abs_state p) toks [] []
+    = (abs_state p', map abs_state (positions_reached toks p), unknown_tokens toks p)
+  /\ out = map unknown_msg (unknown_tokens toks p).
+Proof. exact moves_cmd_follows_play_tokens. Qed.
+Theorem C05_geometry_is_kept : forall u p m, Inv0 p -> In m (legal_moves p) -> TokGeo p -> TokGeo (makemove u p m).
+Proof. exact tokgeo_step. Qed.
+Theorem C05_alias_geometry_is_needed :
+  Inv0 alias_witness /\ ep_ok_b alias_witness = true /\ std_geo alias_witness /\ ~ alias_geo alias_witness
+  /\ find_move alias_witness (lit "e1g1") = Some (mkMv E1 0 NOPIECE)
+  /\ denotes (is_frc alias_witness) (abs_state alias_witness) (lit "e1g1") = None.
+Proof. exact alias_geo_needed. Qed.
+Example C05_geometry_startpos : TokGeo startpos.
+Proof. exact tokgeo_startpos. Qed.
+
 Print Assumptions C05_moves_history.
 Print Assumptions C05_unknown_token_is_noop.
 Print Assumptions C05_only_legal_moves_are_played.
 Print Assumptions C05_matcher_sound.
 Print Assumptions C05_matcher_rejects_everything_else.
 Print Assumptions C05_matcher_complete.
+Print Assumptions C05_matcher_is_the_denotation.
+Print Assumptions C05_moves_follow_the_specification.
+Print Assumptions C05_geometry_is_kept.
+Print Assumptions C05_alias_geometry_is_needed.
